@@ -31,14 +31,14 @@ def main(tier):
     lens = [(a, b) for a in range(1, N + 1) for b in (1, 3, 5)] if tier == 'quick' else [(a, b) for a in range(1, N + 1) for b in range(1, N + 1)]
     for kind in range(5):
         for a, b in (lens if kind != 3 else [(x, y) for x in (1, 2, 3) for y in (1, 2, 3)]):
-            jobs.append(('chore.VerifC14History', dict(fixlen={'v1': a, 'v2': b}, params={'kind': kind}, unwind=60, exclude=exclude, timeout_ms=120000, terminal_obligations=())))
+            jobs.append(('chore.VerifC14History', dict(fixlen={'v1': a, 'v2': b}, params={'kind': kind}, unwind=60, exclude=exclude, timeout_ms=120000, terminal_obligations=(), hooks={'compact': True})))
     rs, viol = ck.run('one-step-history', jobs, job_timeout=120 if tier == 'quick' else 900, bounds={'version_len': '1..%d (digits-only setup version marker: 1..3)' % N, 'marker_kinds': 5})
     ck.triage(viol)
-    jobs = [('chore.VerifC14TwoMarkers', dict(fixlen={'v2': b}, params={'shape': sh, 'prev': pv}, unwind=60, timeout_ms=120000, terminal_obligations=()))
+    jobs = [('chore.VerifC14TwoMarkers', dict(fixlen={'v2': b}, params={'shape': sh, 'prev': pv}, unwind=60, timeout_ms=120000, terminal_obligations=(), hooks={'compact': True}))
             for sh in ((0,) if tier == 'quick' else (0, 1)) for pv in range(4) for b in ((3, 5) if tier == 'quick' else (1, 3, 5, 6, 7))]
     rs, viol = ck.run('two-markers-on-one-line', jobs, job_timeout=300 if tier == 'quick' else 900, bounds={'previous_version': ['4.0.0', '4.1.0-rc1', 'v4.2.0', '4.3.0+b5'], 'new_version_len': [3, 5], 'line_shapes': 1 if tier == 'quick' else 2})
     ck.triage(viol)
-    jobs = [('chore.VerifC14Untouched', dict(fixlen={'line': L, 'v1': 5}, unwind=60, timeout_ms=120000, terminal_obligations=())) for L in range(0, 15)]
+    jobs = [('chore.VerifC14Untouched', dict(fixlen={'line': L, 'v1': 5}, unwind=60, timeout_ms=120000, terminal_obligations=(), hooks={'compact': True})) for L in range(0, 15)]
     rs, viol = ck.run('non-marker-lines', jobs, bounds={'line_len': '0..14'})
     ck.triage(viol)
     return ck.finish()
